@@ -143,7 +143,9 @@ var initAllow = map[string]bool{
 	"maps": true, "iter": true, "internal/itoa": true, "internal/stringslite": true,
 }
 
-// zero-valued globals of packages whose init is not run
+// zero-valued globals of packages whose init is not run; in addition every
+// global of internal/cpu reads as zero (no optional CPU features: the portable
+// code paths of math, bytealg etc. are the ones interpreted)
 var zeroGlobalOK = map[string]bool{
 	"internal/bytealg.MaxLen": true,
 }
